@@ -541,9 +541,10 @@ func (env *SpecEnv) evalDollar(name string) (TV, error) {
 				var otyp types.Type
 				if f := ex.P.calleeByShortName(ex.fn, callee); f != nil && f.Signature.Results().Len() > 0 && !strings.Contains(callee, "#") {
 					srt = ex.vc.sortOf(f.Signature.Results().At(0).Type())
-					// the Go type is kept for struct results only (field selection on the observation); other
+					// the Go type is kept for struct and map results (field selection / lookup on the observation); other
 					// observations stay untyped as before
-					if _, isStruct := f.Signature.Results().At(0).Type().Underlying().(*types.Struct); isStruct {
+					switch f.Signature.Results().At(0).Type().Underlying().(type) {
+					case *types.Struct, *types.Map:
 						otyp = f.Signature.Results().At(0).Type()
 					}
 				}
